@@ -355,7 +355,8 @@ int main(int argc, char** argv)
         cfg.spurious = j.spurious;
         double el = std::chrono::duration<double>(std::chrono::steady_clock::now() - t0).count();
         double left = budget - el;
-        cfg.deadline_s = std::max(5.0, left);
+        // even share of what is left among the jobs still to run (unused time rolls over)
+        cfg.deadline_s = std::max(5.0, left / static_cast<double>(jobs.size() - ji));
         mc::ExploreStats st = mc::explore([&]() { run_scenario(sc); }, cfg, signatures);
         std::string key = j.scen + " bound=" + (j.bound < 0 ? std::string("unbounded") : std::to_string(j.bound))
                           + (j.cache ? " cached" : " uncached") + (j.spurious ? " spurious=" + std::to_string(j.spurious) : "");
